@@ -578,8 +578,489 @@ C_IPW = Contract(f"{PM}:ProbePixelated.initial_probe_weights.fset", setup=ipw_se
                  raises={ValueError: lambda s: s.wmode == "wrong_len"})
 
 CONTRACTS = [C_AHC, C_OBJPROP, C_TOM, C_GS, C_AW, C_IPW]
-LEMMAS = []
-BOUNDED = []
-TRUSTED = []
-ASSUMPTIONS = []
-EXPLANATION = ""
+
+# ================================================================================================================
+# property-level lemmas (from the contract statements alone)
+# ================================================================================================================
+
+
+def lemma_idempotent(ctx):
+    """Applying the constraint to an already constrained object does not change its amplitude.
+    From the contract clause  whole-view:amplitude=A*M :  the amplitude map is  a -> clamp(a,0,1)*M (complex), a -> M (pure phase),
+    M = 1 without FOV mask, M = m^2 with it (m in [0,1])."""
+    a, m = Rl("a"), Rl("m")
+    c = clamp01
+    inm = [a >= 0, m >= 0, m <= 1]
+    return [
+        ("complex[no-mask]", [a >= 0], c(c(a)) == c(a)),
+        ("pure_phase[no-mask]", [], z3.RealVal(1) == 1),
+        ("pure_phase[fov-mask]", inm, m * m == m * m),
+        ("complex[fov-mask,binary]", inm + [OR(m == 0, m == 1)], c(c(a) * m * m) * m * m == c(a) * m * m),
+        # literal statement for every mask in [0,1]: false for 0 < m < 1 (a*m^2 -> a*m^4); triaged, see report
+        ("complex[fov-mask,fractional]", inm, c(c(a) * m * m) * m * m == c(a) * m * m),
+    ]
+
+
+def lemma_tie(ctx):
+    """identical_slices: the result is the slice mean of the untied constrained object (contract clause); induction step over
+    slices for the two claims that survive averaging (the Sigma-term is the k-fold iterate of the step - trusted)."""
+    wr, wi, zr, zi, k, w, z, Sn = Rl("wr"), Rl("wi"), Rl("zr"), Rl("zi"), Rl("k"), Rl("w"), Rl("z"), Rl("S")
+    return [
+        ("complex:|partial-sum|<=k:step", [k >= 0, wr * wr + wi * wi <= k * k, zr * zr + zi * zi <= 1], (wr + zr) * (wr + zr) + (wi + zi) * (wi + zi) <= (k + 1) * (k + 1)),
+        ("complex:|sum|<=S=>|mean|<=1", [Sn >= 1, wr * wr + wi * wi <= Sn * Sn], (wr / Sn) * (wr / Sn) + (wi / Sn) * (wi / Sn) <= 1),
+        ("potential:partial-sum>=0:step", [w >= 0, z >= 0], w + z >= 0),
+        ("potential:sum>=0=>mean>=0", [Sn >= 1, w >= 0], w / Sn >= 0),
+    ]
+
+
+def lemma_totals(ctx):
+    """_apply_weights: per-mode intensity = weight * mean intensity and weights summing to one (setter contract) give the total
+    diffraction intensity and the relative mode weights, for 1..5 modes."""
+    out = []
+    I0 = Rl("I0")
+    for n in range(1, 6):
+        N = [Rl(f"N{k}") for k in range(n)]
+        w = [Rl(f"w{k}") for k in range(n)]
+        hyp = [N[k] == w[k] * I0 for k in range(n)] + [sum(w) == 1]
+        out.append((f"n={n}:total-intensity=mean-intensity", hyp, sum(N) == I0))
+        out.append((f"n={n}:relative-weights=requested", hyp, AND(*[N[k] == w[k] * sum(N) for k in range(n)])))
+    return out
+
+
+def lemma_setter_feeds_apply_weights(ctx):
+    """the setter's postcondition is the weight precondition of _apply_weights"""
+    out = []
+    for n in range(1, 6):
+        W = [Rl(f"W{k}") for k in range(n)]
+        post = [sum(W) == 1] + [x >= 0 for x in W]
+        out.append((f"n={n}", post, AND(sum(W) == 1, *[x >= 0 for x in W])))
+    return out
+
+
+LEMMAS = [Lemma("idempotent-amplitude", lemma_idempotent, uses=["ObjectConstraints.apply_hard_constraints"]),
+          Lemma("slice-tying-keeps-amplitude<=1-and-positivity", lemma_tie, uses=["ObjectConstraints.apply_hard_constraints"]),
+          Lemma("probe-intensity-totals", lemma_totals, uses=["ProbePixelated._apply_weights", "ProbePixelated.initial_probe_weights"]),
+          Lemma("setter-establishes-apply_weights-precondition", lemma_setter_feeds_apply_weights)]
+
+# ================================================================================================================
+# run-time oracles: the same statements evaluated on the REAL functions (replay + bounded stand-ins)
+# ================================================================================================================
+
+TOL = 1e-9
+
+
+def _obj_model(typ, S_, cons, obj):
+    import torch
+    from quantem.diffractive_imaging.object_models import ObjectPixelated
+
+    m = ObjectPixelated.from_uniform(num_slices=S_, slice_thicknesses=1.0 if S_ > 1 else None, obj_type=typ)
+    m._obj = torch.nn.Parameter(obj.clone(), requires_grad=False)
+    m.constraints = cons
+    return m
+
+
+def _obj_inputs(inp):
+    import numpy as np
+    import torch
+
+    rng = np.random.default_rng(inp.get("seed", 0))
+    S_, H, W = inp["S"], inp["H"], inp["W"]
+    scale = inp.get("scale", 2.0)
+    if inp["typ"] == "potential":
+        obj = torch.tensor(rng.normal(size=(S_, H, W)) * scale, dtype=torch.float64)
+    else:
+        amp = rng.uniform(0, scale, size=(S_, H, W))
+        amp.flat[0] = 0.0 if inp.get("zero_pixel") else amp.flat[0]
+        ph = rng.uniform(-np.pi, np.pi, size=(S_, H, W))
+        obj = torch.tensor(amp * np.exp(1j * ph), dtype=torch.complex128)
+    mk = inp.get("mask", "none")
+    if mk == "none":
+        mask = None
+    else:
+        if mk == "binary":
+            m2 = (rng.random((H, W)) > 0.4).astype(float)
+        elif mk == "ones":
+            m2 = np.ones((H, W))
+        else:
+            m2 = rng.uniform(0, 1, size=(H, W))
+            m2.flat[0] = 1.0
+            m2.flat[-1] = 0.0
+        mask = torch.tensor(np.broadcast_to(m2, (S_, H, W)).copy(), dtype=torch.float64)
+    cons = dict(positivity=bool(inp.get("pos", True)), fix_potential_baseline=bool(inp.get("fix", False)),
+                fix_potential_baseline_factor=float(inp.get("factor", 1.0)), identical_slices=bool(inp.get("tie", False)),
+                apply_fov_mask=bool(inp.get("fov", False)))
+    return obj, mask, cons
+
+
+def rt_obj(inp):
+    """Claims of the statement on the real apply_hard_constraints.  inp['triaged']: evaluate ONLY the three literal claims that the
+    unchanged code is known not to meet (reported as findings); otherwise evaluate everything else."""
+    import torch
+
+    obj, mask, cons = _obj_inputs(inp)
+    typ, S_ = inp["typ"], inp["S"]
+    m = _obj_model(typ, S_, cons, obj)
+    obj0 = obj.clone()
+    mask0 = None if mask is None else mask.clone()
+    r = m.apply_hard_constraints(obj, mask=mask)
+    r = r.detach().clone()
+    r2 = m.apply_hard_constraints(r.clone(), mask=mask).detach()
+    masked = mask is not None and cons["apply_fov_mask"]
+    tied = cons["identical_slices"] and S_ > 1
+    frac = masked and bool(((mask > 0) & (mask < 1)).any())
+    problems, klass = [], None
+    A, A2 = r.abs(), r2.abs()
+    triaged = inp.get("triaged")
+    if triaged:
+        if typ == "pure_phase" and masked and float((A - 1).abs().max()) > 1e-7:
+            problems.append(f"pure_phase with FOV mask: |obj| = {float(A.min()):.4g}..{float(A.max()):.4g}, not exactly 1 (amplitude = m^2)")
+            klass = "pure_phase amplitude is m^2 under the FOV mask"
+        elif typ == "pure_phase" and tied and not masked and float((A - 1).abs().max()) > 1e-7:
+            problems.append(f"pure_phase with identical_slices, {S_} slices: |obj| = {float(A.min()):.4g}..{float(A.max()):.4g} (mean of unit phasors), second application gives {float(A2.min()):.4g}")
+            klass = "pure_phase amplitude below 1 after slice tying"
+        elif typ == "complex" and frac and not tied and float((A2 - A).abs().max()) > 1e-7:
+            problems.append(f"complex with fractional FOV mask: amplitude changes by {float((A2 - A).abs().max()):.4g} on re-application (a*m^2 -> a*m^4)")
+            klass = "complex amplitude not idempotent under a fractional FOV mask"
+        return dict(violated=bool(problems), observed="; ".join(problems) or "ok", expected="literal statement", klass=klass)
+    if typ == "complex" and float(A.max()) > 1 + TOL:
+        problems.append(f"complex: max |obj| = {float(A.max()):.6g} > 1")
+    if typ == "pure_phase":
+        if not masked and not tied and float((A - 1).abs().max()) > 1e-9:
+            problems.append(f"pure_phase: |obj| in [{float(A.min()):.6g}, {float(A.max()):.6g}] != 1")
+        if masked and not tied:
+            sel = mask == 1
+            if bool(sel.any()) and float((A[sel] - 1).abs().max()) > 1e-9:
+                problems.append("pure_phase: |obj| != 1 where mask == 1")
+        if float(A.max()) > 1 + TOL:
+            problems.append(f"pure_phase: max |obj| = {float(A.max()):.6g} > 1")
+    if typ == "potential" and cons["positivity"] and float(r.min()) < -TOL:
+        problems.append(f"potential+positivity: min value {float(r.min()):.6g} < 0")
+    if cons["identical_slices"] and S_ > 1 and float((r - r[0:1]).abs().max()) > 1e-9:
+        problems.append("identical_slices: slices differ")
+    if typ != "potential" and not tied:
+        a_in = obj0.abs().clamp(0, 1) if typ == "complex" else torch.ones_like(obj0.abs())
+        exp = a_in * (mask * mask if masked else 1.0)
+        if float((A - exp).abs().max()) > 1e-9:
+            problems.append(f"amplitude != clamp(|obj|,0,1)*M (max dev {float((A - exp).abs().max()):.3g})")
+        mu = obj0.angle().mean()
+        ph = (obj0.angle() - mu) * (mask if masked else 1.0)
+        if float((r - exp * torch.exp(1j * ph)).abs().max()) > 1e-9:
+            problems.append("value != A*M*exp(i(theta-mean theta)[*m])")
+    if typ == "potential" and not cons["fix_potential_baseline"] and not tied:
+        e = obj0.clamp(min=0) if cons["positivity"] else obj0
+        e = e * mask if masked else e
+        if float((r - e).abs().max()) > 1e-12:
+            problems.append("potential value != clamp(obj,0)[*mask]")
+    # idempotence of the amplitude (the two triaged configurations are evaluated separately)
+    skip_idem = (typ == "complex" and frac) or (typ == "pure_phase" and tied) or typ == "potential"
+    if not skip_idem and float((A2 - A).abs().max()) > 1e-9:
+        problems.append(f"amplitude not idempotent: changes by {float((A2 - A).abs().max()):.3g}")
+    if not torch.equal(obj, obj0):
+        problems.append("raw object tensor was modified in place")
+    if mask is not None and not torch.equal(mask, mask0):
+        problems.append("mask was modified in place")
+    return dict(violated=bool(problems), observed="; ".join(problems[:4]) or "ok",
+                expected="|obj|<=1 (complex), =1 (pure phase, mask off / m=1), >=0 (potential+positivity), tied slices, amplitude = clamp(|obj|)*M, idempotent amplitude, inputs untouched")
+
+
+def fam_obj(tier="quick", seed=0):
+    shapes = [(1, 2, 3), (2, 3, 2), (3, 2, 2)] + ([(4, 5, 4)] if tier == "thorough" else [])
+    for (S_, H, W) in shapes:
+        for typ in ("complex", "pure_phase", "potential"):
+            for mask in ("none", "binary", "fractional", "ones"):
+                for fov in (False, True):
+                    if mask == "none" and fov and typ != "potential":
+                        pass
+                    for tie in (False, True):
+                        flags = [(True, False, 1.0), (False, False, 1.0), (True, True, 1.0), (True, True, 0.5), (False, True, 1.7)] if typ == "potential" else [(True, False, 1.0)]
+                        for pos, fix, factor in flags:
+                            yield dict(typ=typ, S=S_, H=H, W=W, mask=mask, fov=fov, tie=tie, pos=pos, fix=fix, factor=factor,
+                                       seed=seed + S_ * 7 + H, scale=2.0, zero_pixel=(H == 3))
+
+
+def fam_obj_quick():
+    for i, x in enumerate(fam_obj()):
+        if i % 3 == 0:
+            yield x
+
+
+def fam_obj_triaged(tier="quick", seed=0):
+    for (S_, H, W) in [(1, 2, 3), (2, 3, 2), (3, 2, 2)]:
+        for typ in ("complex", "pure_phase"):
+            for mask, fov in (("fractional", True), ("binary", True), ("none", False)):
+                for tie in (False, True):
+                    yield dict(typ=typ, S=S_, H=H, W=W, mask=mask, fov=fov, tie=tie, seed=seed + S_ + H, scale=2.0, triaged=True)
+
+
+def ahc_concretize(ev):
+    typ = "complex" if ev("typ_is_complex") else "pure_phase" if ev("typ_is_pure_phase") else "potential"
+    S_ = ev("S", 1) or 1
+    return dict(typ=typ, S=int(min(max(S_, 1), 3)), H=2, W=3, mask="fractional" if ev("mask_given") else "none", fov=bool(ev("apply_fov_mask")),
+                tie=bool(ev("identical_slices")), pos=bool(ev("positivity", True)), fix=bool(ev("fix_potential_baseline", False)),
+                factor=float(ev("baseline_factor", 1.0) or 1.0), seed=1, scale=2.0)
+
+
+C_AHC.rt, C_AHC.rt_family, C_AHC.concretize = rt_obj, fam_obj_quick, ahc_concretize
+C_OBJPROP.rt, C_OBJPROP.rt_family, C_OBJPROP.concretize = rt_obj, fam_obj_quick, ahc_concretize
+
+
+def rt_tom(inp):
+    import numpy as np
+    import torch
+    from quantem.tomography.object_models import ObjectVoxelwise
+
+    rng = np.random.default_rng(inp.get("seed", 0))
+    shape = tuple(inp["shape"])
+    m = ObjectVoxelwise(volume_shape=shape, device="cpu")
+    m.add_hard_constraint("positivity", bool(inp["pos"]))
+    m.add_hard_constraint("shrinkage", inp["shrink"])
+    vol = torch.tensor(rng.normal(size=shape) * 2, dtype=torch.float64)
+    v0 = vol.clone()
+    r = m.apply_hard_constraints(vol)
+    problems = []
+    if inp["pos"] and float(r.min()) < 0:
+        problems.append(f"positivity: min {float(r.min()):.4g} < 0")
+    if inp["shrink"] and float(r.min()) < 0:
+        problems.append(f"shrinkage: min {float(r.min()):.4g} < 0")
+    e = v0.clamp(min=0) if inp["pos"] else v0
+    if inp["shrink"]:
+        e = (e - inp["shrink"]).clamp(min=0)
+    if float((r - e).abs().max()) > 1e-12:
+        problems.append("value != shrink(clamp(vol))")
+    if not torch.equal(vol, v0):
+        problems.append("input volume modified in place")
+    if r.data_ptr() == vol.data_ptr():
+        problems.append("result aliases the input volume")
+    return dict(violated=bool(problems), observed="; ".join(problems) or "ok", expected="non-negative under positivity / shrinkage; input untouched")
+
+
+def fam_tom(tier="quick", seed=0):
+    for shape in [(1, 1, 2), (2, 3, 2), (3, 3, 3)]:
+        for pos in (False, True):
+            for shrink in (False, 0.3, 1.5, -0.4):
+                yield dict(shape=shape, pos=pos, shrink=shrink, seed=seed + shape[1])
+
+
+C_TOM.rt, C_TOM.rt_family = rt_tom, fam_tom
+C_TOM.concretize = lambda ev: dict(shape=(2, 2, 2), pos=bool(ev("positivity")), shrink=float(ev("shrinkage", 0.0) or 0.0) if ev("shrinkage_set") else False, seed=3)
+
+
+def _probe_stack(n, H, W, corr, seed, norms=True):
+    """n complex images with pairwise correlation ~corr (linearly independent) and distinct norms."""
+    import numpy as np
+
+    rng = np.random.default_rng(seed)
+    base = rng.normal(size=(n, H * W)) + 1j * rng.normal(size=(n, H * W))
+    q, _ = np.linalg.qr(base.T)
+    q = q.T[:n]
+    common = q[0]
+    out = []
+    for k in range(n):
+        v = q[k] if k == 0 else np.sqrt(max(0.0, 1 - corr ** 2)) * q[k] + corr * common * np.exp(1j * rng.uniform(0, 6.28))
+        v = v / np.linalg.norm(v)
+        out.append(v * (rng.uniform(0.2, 3.0) if norms else 1.0))
+    return np.array(out).reshape(n, H, W)
+
+
+def rt_gs(inp):
+    import numpy as np
+    import torch
+    from quantem.diffractive_imaging.probe_models import ProbeConstraints
+
+    n, H, W = inp["n"], inp["H"], inp["W"]
+    if H * W < n:
+        return dict(violated=False, observed="skipped (dimension < modes)", expected="")
+    st = torch.tensor(_probe_stack(n, H, W, inp["corr"], inp.get("seed", 0)), dtype=torch.complex128)
+    s0 = st.clone()
+    out = ProbeConstraints._probe_orthogonalization_constraint(None, st)
+    problems = []
+    if tuple(out.shape) != tuple(st.shape):
+        return dict(violated=True, observed=f"shape {tuple(out.shape)}", expected=str(tuple(st.shape)))
+    o = out.reshape(n, -1)
+    G = (o.conj() @ o.T)
+    nr = torch.sqrt(G.diagonal().real)
+    for a in range(n):
+        for b in range(n):
+            if a != b and float(G[a, b].abs()) > 1e-9 * float(nr[a] * nr[b]) + 1e-12:
+                problems.append(f"<out[{a}],out[{b}]> = {complex(G[a, b]):.3g} (norms {float(nr[a]):.3g},{float(nr[b]):.3g})")
+    iin = np.sort((s0.abs() ** 2).sum(dim=(-2, -1)).numpy())[::-1]
+    iout = (out.abs() ** 2).sum(dim=(-2, -1)).numpy()
+    if np.any(np.diff(iout) > 1e-9 * iout.max()):
+        problems.append(f"intensities not descending: {iout.tolist()}")
+    if not np.allclose(np.sort(iout)[::-1], iin, rtol=1e-9):
+        problems.append(f"intensity multiset changed: in {iin.tolist()} out {np.sort(iout)[::-1].tolist()}")
+    if not torch.equal(st, s0):
+        problems.append("input stack modified in place")
+    return dict(violated=bool(problems), observed="; ".join(problems[:3]) or "ok",
+                expected="mutually orthogonal modes, same multiset of intensities, descending")
+
+
+def fam_gs(tier="quick", seed=0):
+    for n in (1, 2, 3, 4, 5):
+        for corr in (0.0, 0.5, 0.9, 0.99):
+            for (H, W) in ((2, 3), (4, 4)) + (((7, 5),) if tier == "thorough" else ()):
+                for sd in range(2 if tier == "quick" else 5):
+                    yield dict(n=n, corr=corr, H=H, W=W, seed=seed + sd + 11 * n)
+
+
+C_GS.rt, C_GS.rt_family = rt_gs, fam_gs
+
+
+def _probe_model(n, H, W, weights, seed):
+    import numpy as np
+    from quantem.diffractive_imaging.probe_models import ProbePixelated
+
+    arr = _probe_stack(n, H, W, 0.3, seed).astype(np.complex128)
+    import torch
+
+    return ProbePixelated.from_array(arr, initial_probe_weights=weights, dtype=torch.complex128), arr
+
+
+def rt_aw(inp):
+    import numpy as np
+    import torch
+
+    n, H, W = inp["n"], inp["H"], inp["W"]
+    rng = np.random.default_rng(inp.get("seed", 0))
+    w = rng.uniform(0.05, 1.0, size=n)
+    if inp.get("zero_weight") and n > 1:
+        w[-1] = 0.0
+    p, arr = _probe_model(n, H, W, list(w), inp.get("seed", 0))
+    I0 = float(inp["I0"])
+    p._mean_diffraction_intensity = I0
+    W_ = p.initial_probe_weights.double().numpy()
+    src = torch.tensor(arr, dtype=torch.complex128)
+    out = p._apply_weights(src.clone())
+    problems = []
+    tot = float((torch.fft.fft2(out, norm="ortho").abs() ** 2).sum())
+    if abs(tot - I0) > 1e-6 * I0:
+        problems.append(f"total diffraction intensity {tot:.8g} != mean intensity {I0:.8g}")
+    per = (out.abs() ** 2).sum(dim=(1, 2)).numpy()
+    if not np.allclose(per / per.sum(), W_, atol=1e-6):
+        problems.append(f"relative mode weights {(per / per.sum()).tolist()} != requested {W_.tolist()}")
+    for k in range(n):
+        c = (src[k].conj() * out[k]).sum() / (src[k].abs() ** 2).sum()
+        if abs(c.imag) > 1e-9 * (abs(c) + 1e-30) or c.real < -1e-12 or float((out[k] - c * src[k]).abs().max()) > 1e-9 * float(out[k].abs().max() + 1e-30):
+            problems.append(f"mode {k} is not a non-negative real multiple of the input mode")
+    return dict(violated=bool(problems), observed="; ".join(problems[:3]) or "ok",
+                expected="sum |fft2_ortho(probe)|^2 = mean intensity; mode fractions = requested weights")
+
+
+def fam_aw(tier="quick", seed=0):
+    for n in (1, 2, 3, 4, 5):
+        for (H, W) in ((3, 3), (4, 6)):
+            for I0 in (1.0, 37.5, 1e4):
+                yield dict(n=n, H=H, W=W, I0=I0, seed=seed + n, zero_weight=(I0 == 37.5))
+
+
+C_AW.rt, C_AW.rt_family = rt_aw, fam_aw
+
+
+def rt_ipw(inp):
+    import numpy as np
+
+    n = inp["n"]
+    rng = np.random.default_rng(inp.get("seed", 0))
+    p, _ = _probe_model(n, 3, 3, None, 1)
+    mode = inp["mode"]
+    problems = []
+    if mode == "none":
+        p.initial_probe_weights = None
+        W_ = p.initial_probe_weights.double().numpy()
+        if len(W_) != n or abs(W_.sum() - 1) > 1e-6 or (W_ < 0).any() or not np.allclose(W_[1:], 0.02, atol=1e-7):
+            problems.append(f"default weights {W_.tolist()}")
+    elif mode == "given":
+        w = rng.uniform(0.0, 5.0, size=n)
+        p.initial_probe_weights = list(w)
+        W_ = p.initial_probe_weights.double().numpy()
+        if len(W_) != n or abs(W_.sum() - 1) > 1e-6 or (W_ < 0).any() or not np.allclose(W_ * w.sum(), w, rtol=1e-5, atol=1e-6):
+            problems.append(f"weights {W_.tolist()} for request {w.tolist()}")
+    else:
+        before = p.initial_probe_weights.clone()
+        try:
+            p.initial_probe_weights = [1.0] * (n + inp.get("extra", 1))
+            problems.append("wrong-length weights accepted")
+        except ValueError:
+            pass
+        import torch
+
+        if not torch.equal(before, p.initial_probe_weights):
+            problems.append("weights changed by a rejected request")
+    return dict(violated=bool(problems), observed="; ".join(problems) or "ok", expected="weights sum to 1, keep the requested ratios; wrong length -> ValueError")
+
+
+def fam_ipw(tier="quick", seed=0):
+    for n in (1, 2, 3, 4, 5):
+        for mode in ("none", "given", "wrong_len"):
+            for sd in range(2):
+                yield dict(n=n, mode=mode, seed=seed + sd, extra=1 if sd == 0 else -1 if n > 1 else 2)
+
+
+C_IPW.rt, C_IPW.rt_family = rt_ipw, fam_ipw
+
+
+def rt_probe_property(inp):
+    """probe_model.probe (the probe handed to the forward model) with orthogonalize_probe on: orthogonal, sorted, same intensities."""
+    import numpy as np
+    import torch
+
+    n, H, W = inp["n"], inp["H"], inp["W"]
+    p, arr = _probe_model(n, H, W, None, inp.get("seed", 0))
+    p.constraints = {"orthogonalize_probe": True, "center_probe": False}
+    out = p.probe.detach()
+    o = out.reshape(n, -1)
+    G = (o.conj() @ o.T)
+    nr = torch.sqrt(G.diagonal().real)
+    problems = []
+    for a in range(n):
+        for b in range(a + 1, n):
+            if float(G[a, b].abs()) > 1e-9 * float(nr[a] * nr[b]):
+                problems.append(f"<probe[{a}],probe[{b}]> = {complex(G[a, b]):.3g}")
+    iout = (out.abs() ** 2).sum(dim=(-2, -1)).numpy()
+    iin = np.sort((np.abs(arr) ** 2).sum(axis=(1, 2)))[::-1]
+    if np.any(np.diff(iout) > 1e-9 * iout.max()) or not np.allclose(iout, iin, rtol=1e-9):
+        problems.append(f"intensities {iout.tolist()} vs sorted input {iin.tolist()}")
+    return dict(violated=bool(problems), observed="; ".join(problems[:3]) or "ok", expected="probe_model.probe is orthogonal, sorted, intensity preserving")
+
+
+def fam_probe_property(tier="quick", seed=0):
+    for n in (1, 2, 3, 5):
+        for (H, W) in ((3, 3), (4, 5)):
+            yield dict(n=n, H=H, W=W, seed=seed + n)
+
+
+BOUNDED = [
+    Bounded.from_rt("object constraints on random tensors (all configurations, non-triaged claims)", rt_obj, fam_obj,
+                    "shapes <=3x3x2 (<=4x5x4 thorough), 3 object types, 4 mask kinds, fov/tie/positivity/baseline flags; float64"),
+    Bounded.from_rt("object constraints: the three literal claims the unchanged code does not meet", rt_obj, fam_obj_triaged,
+                    "shapes <=3x3x2, complex / pure_phase, fractional / binary / no mask, tie on/off", klass=lambda inp, res: res.get("klass") or "other"),
+    Bounded.from_rt("tomography hard constraints on random volumes", rt_tom, fam_tom, "volumes <=3x3x3, positivity x shrinkage in {off, 0.3, 1.5, -0.4}"),
+    Bounded.from_rt("Gram-Schmidt orthogonalisation on random stacks", rt_gs, fam_gs, "1..5 modes, pairwise correlation 0..0.99, images 2x3 / 4x4 (7x5 thorough), complex128"),
+    Bounded.from_rt("probe_model.probe with orthogonalisation on (dispatch through apply_hard_constraints)", rt_probe_property, fam_probe_property, "1..5 modes, images 3x3 / 4x5"),
+    Bounded.from_rt("_apply_weights intensity / weight normalisation", rt_aw, fam_aw, "1..5 modes, images 3x3 / 4x6, 3 mean intensities, one zero weight"),
+    Bounded.from_rt("initial_probe_weights setter", rt_ipw, fam_ipw, "1..5 modes, default / given / wrong-length"),
+]
+
+TRUSTED = [
+    "pyvc engine, z3, cvc5",
+    "A4 lemma instances for sqrt / cos / sin / atan2 (sqrt(t)^2 = t for t >= 0, cos^2+sin^2 = 1); no other fact about atan2/angle is used",
+    "complex arithmetic of torch tensors = field arithmetic on (re, im) pairs; abs = sqrt(re^2+im^2); exp(i x) = (cos x, sin x) (pyvc/lib/c10_models.py, pixel domain)",
+    "inner-product domain (pyvc/lib/c10_models.py): a pixel sum of conj(x)*y is the sesquilinear form <x,y>; expansion of pixel sums over finite linear combinations; conjugate symmetry and positivity axioms",
+    "A5 Parseval: torch.fft.fft2(norm='ortho') over the pixel axes preserves <.,.>",
+    "torch.argsort(descending=True) returns a permutation of the indices with non-increasing keys; a permutation preserves the multiset",
+    "tensor.max()/min() bound every element; tensor.any() and boolean-mask gather are abstract (no C10 statement depends on their value)",
+    "quantem.core.utils.validators.validate_tensor returns the same numbers as a tensor (helper, not under contract)",
+    "induction over slices linking the Sigma-term of torch.mean(dim=0) to the step lemmas of `slice-tying-keeps-amplitude<=1-and-positivity`",
+]
+ASSUMPTIONS = [
+    "A1 floats are reals (the clamp floor 1e-12 and all sums are exact; rounding is only exercised by the bounded stand-ins)",
+    "Gram-Schmidt claims are proved under H := every normalised residual has unit norm, i.e. no residual norm fell below clamp_min(1e-12); this is the property's linear-independence precondition in quantitative form (run-time oracle: correlation <= 0.99)",
+    "smoothing filters (gaussian_sigma, q_lowpass, q_highpass) are off, as the property's quantifier says; surface / TV terms are soft constraints and not part of apply_hard_constraints",
+    "identical_slices with more than one slice: proved are tied slices, result = slice mean of the untied constrained object, and the type claims of that untied object; amplitude <= 1 and positivity of the mean follow by the step lemmas plus trusted induction (also bounded check)",
+    "mode count 1..5 is enumerated for _apply_weights and the weights setter (the property's own range); Gram-Schmidt is proved for every mode count by induction",
+    "probe center-of-mass constraint, random phase shifts and ProbeParametric/ProbeDIP/ObjectDIP wrappers are outside the claim",
+]
+EXPLANATION = ("VCs from the real source of the object hard constraints (pointwise over one generic pixel of a symbolic-shape tensor, complex entries "
+               "as (re, im), mean phase = the code's own Sigma-term), of the Gram-Schmidt orthogonalisation (outer/inner loop invariants in an abstract "
+               "complex inner-product space; descending sort through the trusted argsort permutation) and of the probe intensity / weight normalisation "
+               "(Parseval); property lemmas for idempotence, slice tying and intensity totals")
